@@ -537,6 +537,7 @@ def r7_emitted_stack_discipline(ctx, rule_id="R-C07-7"):
         return
     n_obl = 0
     decided = 0
+    lost = []
     n_conf = 0
     for k, a in sorted(results.items()):
         seen_c = set()
@@ -557,6 +558,7 @@ def r7_emitted_stack_discipline(ctx, rule_id="R-C07-7"):
         if ent is not None:
             if sm is None:
                 ctx.note("%s: %s no longer has a determinate net stack effect (reviewed: %s) — not decided" % (R, k.split("::")[-1], ent))
+                lost.append(k.split("::")[-1])
             else:
                 decided += 1
                 labs = {str(p): v for p, v in sm["labels"].items()}
@@ -584,6 +586,11 @@ def r7_emitted_stack_discipline(ctx, rule_id="R-C07-7"):
     if not n_conf:
         ctx.floor(R, "generator functions with a decided contract", decided, 6)
         ctx.floor(R, "emitted-join equalities discharged", n_obl, 4)
+    if lost and not n_conf:
+        # fail closed: a reviewed determinate contract that can no longer be re-established is an obligation nobody discharges any more — the
+        # callers of these functions are data-dependent and rely on it
+        raise CheckError("%s: the reviewed net-effect contract of %s can no longer be established (the function's emitted stack effect became "
+                         "path- or data-dependent) — cannot decide whether its callers are still balanced" % (R, ", ".join(sorted(lost))))
     ctx.extra["c07_emit"] = {"functions_analysed": len(results), "with_contract": decided, "join_equalities": n_obl,
                              "undecided": sorted(k.split("::")[-1] for k in results if k not in summaries)[:60]}
 
